@@ -84,11 +84,21 @@ def run_shard(shard, tier, seed, wd, res):
             s.op(gp + ".ctx_base", ctx, Pj, V.n(num), V.lst([V.RR(k) for k in chunk]), V.n(rng.getrandbits(1)))
         for k in small[:: 5]:
             s.op(gp + ".ctx_scalar", ctx, V.RR(k), V.lst([Pj, V.proj(g, P[0], P[1], (1 if g == 1 else (1, 0)))]), V.n(rng.getrandbits(1)))
-        # identity base on every path
+        # identity base on every path (plain, table-driven, wNAF in both staging orders, raw wNAF primitives)
         O = V.aff(g, None)
+        preO3 = s.op(gp + ".precomp3", O)
+        preO256 = s.op(gp + ".precomp256", O)
         for k in (0, 1, R, (1 << 256) - 1, rng.getrandbits(256)):
-            s.op(gp + ".mul", V.proj(g, *G.identity_rep(g, G.rand_fe(g, rng))), V.RR(k))
+            Oj = V.proj(g, *G.identity_rep(g, G.rand_fe(g, rng)))
+            s.op(gp + ".mul", Oj, V.RR(k))
             s.op(gp + ".amul", O, V.RR(k))
+            s.op(gp + ".mul_pre3", O, V.RR(k), preO3)
+            s.op(gp + ".mul_pre256", O, V.RR(k), preO256)
+            kk = k & ((1 << 255) - 1)
+            s.op(gp + ".ctx_base", ctx, Oj, V.n(rng.choice([1, 10])), V.lst([V.RR(kk), V.RR(1)]))
+            s.op(gp + ".ctx_scalar", ctx, V.RR(kk), V.lst([Oj, Pj]))
+        tO = s.op(gp + ".wnaf_table", V.proj(g, *G.identity_rep(g, G.rand_fe(g, rng))), V.n(3))
+        s.op(gp + ".wnaf_exp", tO, s.op(gp + ".wnaf_form", V.RR(rng.getrandbits(255)), V.n(3)))
     elif part == "odd_points":
         # plain paths on arbitrary curve points: small order, order r*l, full order
         so = G.small_order_points(g, rng)
